@@ -492,7 +492,7 @@ def to_str(I, x):
         return str(x)
     if is_z3(x) and x.sort() == INT:
         # str(int): A3 (injective decimal rendering)
-        return core.S_ITOS(x)
+        return I.itos(x)
     if x is None:
         return "None"
     return Opaque("str(%s)" % type(x).__name__)
@@ -1106,12 +1106,34 @@ def make_builtins(I):
     I.fp = fp
 
     def num_repr(v):
-        # A3: repr(float) / "%d" are abstract injective renderings
-        if is_z3(v) and v.sort() == REAL:
-            return I.repr_fn(v)
+        # A3: repr(float) / "%d" are abstract renderings with the CPython guarantees below
         if isinstance(v, Fraction):
-            return I.repr_fn(as_real(v))
+            v = as_real(v)
+        if is_z3(v) and v.sort() == REAL:
+            r = I.repr_fn(v)
+            ctx = I.ctx
+            key = ("repr", v.get_id())
+            if key not in ctx.hc:
+                ctx.hc[key] = True
+                av = z3.If(v >= 0, v, -v)
+                ctx.assume(z3.And(I.is_float_str(r), I.dec_real(r) == v,      # float(repr(x)) == x
+                                  z3.Not(I.is_int_str(r)),                    # int(repr(x)) raises ValueError
+                                  # positional notation (always with a '.') for 1e-4 <= |x| < 1e16, and for 0.0
+                                  z3.Implies(z3.Or(v == 0, z3.And(av >= z3.Q(1, 10000), av < z3.Q(10 ** 16, 1))),
+                                             core.S_CONTAINS(r, core.str_lit(".")))))
+            return r
         return to_str(I, v)
+
+    def itos(n):
+        r = core.S_ITOS(n)
+        ctx = I.ctx
+        key = ("itos", n.get_id())
+        if key not in ctx.hc:
+            ctx.hc[key] = True
+            ctx.assume(z3.And(I.is_int_str(r), I.dec_int(r) == n, I.is_float_str(r), I.dec_real(r) == z3.ToReal(n),
+                              z3.Not(core.S_CONTAINS(r, core.str_lit(".")))))
+        return r
+    I.itos = itos
     I.repr_fn = z3.Function("Repr", REAL, STR)
     I.num_repr = num_repr
     I.dec_real = z3.Function("FloatOf", STR, REAL)
